@@ -753,9 +753,11 @@ impl UringConnectionHandler for ZmtpUringHandler {
     
     // PUSH and PUB sockets never receive payload data in the Data phase.
     // This drops the EAGAIN CQE storm to exactly 0.
+    // With heartbeats on they must keep reading: the PONGs (and the peer's PINGs) arrive here.
     let socket_type = self.engine.config().socket_type_name.as_str();
     if (socket_type == "PUSH" || socket_type == "PUB")
       && self.engine.phase == crate::protocol::zmtp::engine::ZmtpPhase::Data
+      && self.engine.config().heartbeat_ivl.is_none()
     {
       return true;
     }
